@@ -227,3 +227,65 @@ def _t_convolve(c):
             a = big
     return Call("c:convolve", lambda ns, x, y: ns.sig_convolve(x, y, **kw), [a, b], desc=["convolve", list(a), list(b), kw],
                 feats=_cf("convolve", a, b, mode=mode, kind=k), cplx=False)
+
+
+@template("c:einsum_gen", "contract", weight=3)
+def _t_einsum_gen(c):
+    """Generated einsum specifications (string and sublist conventions from one spec): 1-3 operands over labels with sizes 1-3,
+    repeated labels inside an operand, size-1 axes broadcasting against a labelled axis, '...' blocks of different ranks (first,
+    last, middle), implicit or explicit output with summed-out or kept labels.  NumPy decides validity (invalid ones are counted
+    as rejected by NumPy)."""
+    labels = "ijkl"
+    sizes = {lab: c.int(1, 3) for lab in labels}
+    n_ops = c.choice([1, 2, 2, 2, 3])
+    use_ell = c.chance(2, 5)
+    batch = tuple(c.int(1, 3) for _ in range(c.int(1, 2))) if use_ell else ()
+    subs, shapes = [], []
+    for _ in range(n_ops):
+        k = c.int(0, 3 if not use_ell else 2)
+        labs = [labels[c.int(0, 3)] for _ in range(k)]
+        shape = [sizes[lab] if not c.chance(1, 8) else 1 for lab in labs]
+        if use_ell and c.chance(4, 5):
+            pos = c.choice([0, len(labs), c.int(0, len(labs))])
+            own = batch[c.int(0, len(batch)):]  # a suffix of the full batch shape (NumPy right-aligns the '...' blocks)
+            own = tuple(1 if c.chance(1, 6) else d for d in own)
+            labs = labs[:pos] + [Ellipsis] + labs[pos:]
+            shape = shape[:pos] + list(own) + shape[pos:]
+        subs.append(labs)
+        shapes.append(tuple(shape))
+    seen = [lab for s_ in subs for lab in s_ if lab is not Ellipsis]
+    uniq = sorted(set(seen))
+    out = None
+    if c.chance(2, 3):
+        keep = [lab for lab in uniq if c.chance(2, 3)]
+        keep = c.sample(keep, len(keep))
+        out = list(keep)
+        if any(Ellipsis in s_ for s_ in subs) and c.chance(5, 6):
+            p_ = c.choice([0, len(out)])
+            out = out[:p_] + [Ellipsis] + out[p_:]
+    listform = c.chance(1, 3)
+
+    def tostr(s_):
+        return "".join("..." if x is Ellipsis else x for x in s_)
+
+    if listform:
+        num = {lab: i for i, lab in enumerate(labels)}
+
+        def fn(ns, *xs):
+            args = []
+            for x, s_ in zip(xs, subs):
+                args += [x, [Ellipsis if lab is Ellipsis else num[lab] for lab in s_]]
+            if out is not None:
+                args.append([Ellipsis if lab is Ellipsis else num[lab] for lab in out])
+            return ns.einsum(*args)
+    else:
+        spec = ",".join(tostr(s_) for s_ in subs) + ("" if out is None else "->" + tostr(out))
+
+        def fn(ns, *xs):
+            return ns.einsum(spec, *xs)
+
+    desc = ["einsum_gen", ",".join(tostr(s_) for s_ in subs) + ("" if out is None else "->" + tostr(out)), [list(s_) for s_ in shapes], "list" if listform else "str"]
+    ranks = [sum(1 for x in s_ if x is Ellipsis) for s_ in subs]
+    return Call("c:einsum_gen", fn, shapes, desc=desc, nosame=n_ops > 2,
+                feats={"fn": "einsum", "n_ops": n_ops, "ellipsis": use_ell and any(ranks), "implicit": out is None, "list_form": listform,
+                       "repeated_label": any(len([x for x in s_ if x is not Ellipsis]) != len({x for x in s_ if x is not Ellipsis}) for s_ in subs)})
